@@ -287,12 +287,25 @@ func checkC17(c *Ctx, w *World) {
 			continue
 		}
 		nCfgStores++
-		al, isAl := a.Instr.(*ssa.Store).Val.(*ssa.Alloc)
-		if !isAl {
+		// the stored wrapper: an allocation of this call (possibly one per branch: a composite literal on each)
+		var wrappers []*ssa.Alloc
+		os := origins(a.Instr.(*ssa.Store).Val)
+		if len(os) == 0 {
 			okClone = false
-			continue
 		}
-		for _, r := range *al.Referrers() {
+		for _, o := range os {
+			al, isAl := o.Val.(*ssa.Alloc)
+			if !isAl || o.Kind != "alloc" {
+				okClone = false
+				continue
+			}
+			wrappers = append(wrappers, al)
+		}
+		var refs []ssa.Instruction
+		for _, al := range wrappers {
+			refs = append(refs, *al.Referrers()...)
+		}
+		for _, r := range refs {
 			fa, ok := r.(*ssa.FieldAddr)
 			if !ok || fieldRefOfAddr(fa) != "GCPBalancerConfig.ApiConfig" {
 				continue
@@ -398,7 +411,9 @@ func checkC17(c *Ctx, w *World) {
 					names, _ = staticCallNamed(ia.X, ".GetName")
 				}
 			}
-			if !isA || names == nil || aff.Call.Args[0] != names.Call.Args[0] {
+			ensureEquiv(ic)
+			// (the same entry: one value, or two reads of the same element with nothing in between that could change it)
+			if !isA || names == nil || (aff.Call.Args[0] != names.Call.Args[0] && kstr(aff.Call.Args[0]) != kstr(names.Call.Args[0])) {
 				okTab = false
 				return
 			}
